@@ -39,6 +39,10 @@ var osFuncs = map[string]string{
 	"MkdirAll": "OSMkdirAll", "Mkdir": "OSMkdir", "Chmod": "OSChmod", "Truncate": "OSTruncate",
 }
 var ioutilFuncs = map[string]string{"WriteFile": "OSWriteFile"}
+
+// clock reads -> simulated clock; timers the simulator does not own are reported
+var timeFuncs = map[string]string{"Now": "Now", "Since": "Since", "Until": "Until", "Sleep": "Sleep"}
+var timeUnhandled = map[string]bool{"After": true, "AfterFunc": true, "NewTimer": true, "NewTicker": true, "Tick": true}
 // blocking (or runtime-dependent) methods of package sync -> simulator-aware wrappers
 var syncMethods = map[string]string{
 	"Mutex.Lock": "MutexLock", "RWMutex.Lock": "RWMutexLock", "RWMutex.RLock": "RWMutexRLock",
@@ -78,6 +82,7 @@ type rewriter struct {
 	osCalls   int
 	fileCalls int
 	syncCalls int
+	timeCalls int
 	mapRanges int
 	yields    int
 }
@@ -346,6 +351,14 @@ func (r *rewriter) rewriteOS(f *ast.File) {
 			if w, ok := ioutilFuncs[sel.Sel.Name]; ok {
 				return w, true
 			}
+		case "time":
+			if w, ok := timeFuncs[sel.Sel.Name]; ok {
+				r.timeCalls++
+				return w, true
+			}
+			if timeUnhandled[sel.Sel.Name] {
+				r.unwrapped["time."+sel.Sel.Name]++
+			}
 		}
 		return "", false
 	}
@@ -597,6 +610,9 @@ func main() {
 	var g bytes.Buffer
 	fmt.Fprintf(&g, "// Code generated by simrewrite. DO NOT EDIT.\n\npackage %s\n\nimport simhook %q\n\nfunc init() {\n", pkg.Name(), hookPath)
 	fmt.Fprintf(&g, "\tsimhook.SetNumSites(%d)\n", r.nextSite)
+	if r.spawns > 0 {
+		fmt.Fprintf(&g, "\tsimhook.Concurrent = true // package jen starts %d goroutine(s) of its own\n", r.spawns)
+	}
 	fmt.Fprintf(&g, "\tsimhook.MapSites = map[int]string{\n")
 	var ids []int
 	for id := range r.mapSites {
@@ -621,6 +637,7 @@ func main() {
 		"os_calls_redirected":    strconv.Itoa(r.osCalls),
 		"file_methods_redirected": strconv.Itoa(r.fileCalls),
 		"sync_calls_redirected":   strconv.Itoa(r.syncCalls),
+		"time_calls_redirected":   strconv.Itoa(r.timeCalls),
 		"unintercepted_os_calls": strings.Join(unw, ","),
 		"package_vars":           strings.Join(globals, ","),
 	}
